@@ -632,6 +632,7 @@ inductive Ev
   | timeout                          -- the configured reply timeout has elapsed for every pending reply
   | expire (due : List Pending)      -- … for these pending replies only (whoever keeps the time says which: `Timed`)
   | stall (c : ConnId) (on : Bool)   -- c stops reading and its queue fills up / c has caught up again
+  | reload (p : Policy)              -- the configuration is read again (SIGHUP / ReloadConfig): a new security policy
   deriving Inhabited
 
 def PEER_IFACE : Bytes := ([0x6f,0x72,0x67,0x2e,0x66,0x72,0x65,0x65,0x64,0x65,0x73,0x6b,0x74,0x6f,0x70,0x2e,0x44,0x42,0x75,0x73,0x2e,0x50,0x65,0x65,0x72] : Bytes)
@@ -734,6 +735,13 @@ def expireWhere (b : Bus) (due : Pending → Bool) : Tx :=
   (b.pending.filter due).foldl (fun t p => sendError t p.caller (fakeCall p.serial) .noReply)
     ({ bus := { b with pending := b.pending.filter fun p => !due p } } : Tx)
 
+/-- `bus_context_reload_config` as far as the security policy goes: the new policy is installed and
+    `bus_connections_reload_policy` gives every registered connection a freshly built client policy
+    (what a connection owns, waits for or has outstanding is not looked at again) -/
+def reloadPolicy (b : Bus) (p : Policy) : Bus :=
+  { b with policy := p,
+           conns := b.conns.map fun x => if x.name.isSome then { x with policy := p.clientRules x.uid x.gids false } else x }
+
 def step (tbl : List IfaceRow) (b : Bus) : Ev → Tx
   | .connect c uid gids canFd =>
     if (b.conn? c).isSome then { bus := b }
@@ -744,6 +752,7 @@ def step (tbl : List IfaceRow) (b : Bus) : Ev → Tx
   | .timeout => expireAll b
   | .expire due => expireWhere b (due.contains ·)
   | .stall c on => { bus := { b with full := if on then c :: b.full.filter (· != c) else b.full.filter (· != c) } }
+  | .reload p => { bus := reloadPolicy b p }
 
 def run (tbl : List IfaceRow) (b : Bus) (evs : List Ev) : Bus × List (List Out) :=
   evs.foldl (fun (acc : Bus × List (List Out)) ev =>
